@@ -59,8 +59,8 @@ CHECKS = {
                      "restart after faulting events, one OS process per segment, 200-delivery jobs) must reproduce it at every "
                      "delivery, and rows must be conserved. Reference-free; sampling, not proof.",
                 note="Trusted: the stand-in frameworks (sim/job/standin), the typed query generator's vocabulary. Queries rejected by "
-                     "the translator or by g++ are counted and skipped. One recorded finding (aggregate over SelectMany inside an "
-                     "expression) is reported as KNOWN-FINDING.",
+                     "the translator or by g++ are counted and skipped; if a backend's jobs stop compiling against the stand-in the "
+                     "check reports HARNESS-ERROR (coverage lost), not a pass.",
                 technique="deterministic simulation: compiled generated job under a simulated framework; seeded event schedules and job restarts vs per-event canonical outcome"),
     "C06": dict(engine="job", level="fault_enumeration", design="4.3",
                 text="Run-time clauses only: the stand-in event store logs every retrieval (API, container type, bank) of the compiled "
